@@ -122,7 +122,10 @@ def lone_vacancy(dim, nb, jumps, FV, FT0):
 def supercell_sizes(dim, nb, budget=12000):
     """three supercell multiplicities (isotropic in lattice units) whose largest state count stays within budget"""
     if dim == 3:
-        for trip in ((8, 10, 12), (6, 8, 10), (5, 6, 8), (4, 5, 6), (3, 4, 5)):
+        # as large as the budget allows: with thermodynamic range 2 the kinetic shell spans several cells and L = 8 is still
+        # pre-asymptotic (simple cubic, range 2: the finite-size correction carries a large 1/N^(4/3) term next to 1/N and the
+        # extrapolants from L = 8, 10, 12 coincided by accident, error bar 8x too small; L = 12, 14, 16 is clean)
+        for trip in ((12, 14, 16), (10, 12, 14), (8, 10, 12), (7, 9, 11), (6, 8, 10), (5, 6, 8), (4, 5, 6), (3, 4, 5)):
             if nb * nb * trip[-1] ** 3 <= budget:
                 return trip
         return (3, 4, 5)
@@ -168,4 +171,6 @@ def dilute_limit(lattice, nb, jumps, Fstate, Ftrans, FS, FV, FT0, sizes=None, bu
             out[nm] = e23
             out[nm + "_err"] = float(np.abs(e23 - e12).max())
         out[nm + "_raw"] = res[2][k]
+        # size of the correction the extrapolation applied to the largest cell: the caller does not trust it to better than a quarter
+        out[nm + "_step"] = float(np.abs(out[nm] - res[2][k]).max())
     return out
